@@ -35,6 +35,12 @@ DayClauses(o) ==
      THEN  \* before 1 March 1900: only monotone and invertible
           Cl("serial_not_increasing", r[4].t = "num" /\ r[18].t = "num" /\ QLt(QOf(r[4]), QOf(r[18])))
           \o Cl("date_round_trip", IsD(r[19], c, 0))
+          \o (IF "calendar" \in DOMAIN o.in      \* C14: the calendar functions do not depend on the serial scale
+              THEN Cl("parts_of_date", IsN(r[10], c.y) /\ IsN(r[11], c.mo) /\ IsN(r[12], c.d))
+                   \o Cl("parts_of_DATE", IsN(r[22], c.y) /\ IsN(r[23], c.mo) /\ IsN(r[24], c.d))
+                   \o Cl("WEEKDAY", IsN(r[13], Weekday(n, 1)) /\ IsN(r[14], Weekday(n, 2)) /\ IsN(r[15], Weekday(n, 3))
+                                     /\ IsN(r[25], Weekday(n, 2)))
+              ELSE <<>>)
      ELSE Cl("ymd_of_serial", IsN(r[1], c.y) /\ IsN(r[2], c.mo) /\ IsN(r[3], c.d))
           \o Cl("DATEVALUE", IsN(r[4], n))
           \o Cl("N", IsN(r[5], n))
@@ -49,6 +55,7 @@ DayClauses(o) ==
           \o Cl("date_round_trip", IsD(r[19], c, 0))
           \o Cl("date_plus_n", IsD(r[20], CivilFromDayNumber(n + o.in.k), 0))
           \o Cl("date_minus_n", n - 7 < FirstExcelDay \/ IsD(r[21], CivilFromDayNumber(n - 7), 0))
+          \o Cl("parts_of_DATE", IsN(r[22], c.y) /\ IsN(r[23], c.mo) /\ IsN(r[24], c.d) /\ IsN(r[25], Weekday(n, 2)))
 
 InstantClauses(o) ==
   LET c == [y |-> o.in.y, mo |-> o.in.mo, d |-> o.in.d]
